@@ -130,6 +130,13 @@ def generate(tier, rng):
         # ids 0 and '' (D19), configured id used for a notification
         yield {'suite': NAME, 'passthrough': pt, 'ops': [{'op': 'add', 'ep': EPS[0], 'm': 'm1', 'patch': patch('result', 1, id='cfg')},
                                                         request(EPS[0], call('m1', 0)), request(EPS[0], call('m1', '')), request(EPS[0], call('m1', None))]}
+        # batches whose elements draw replies configured with the same id (notifications take the configured id): the
+        # mocker answers element-wise, it does not raise an identity error of its own (D30)
+        for batch in ([call('m1', None), call('m1', None)], [call('m1', None, [1]), call('m2', 0), call('m1', None, {'a': 1})],
+                      [call('m1', 5), call('m1', None), call('m1', None), call('m1', 'x')]):
+            yield {'suite': NAME, 'passthrough': pt, 'ops': [{'op': 'add', 'ep': EPS[0], 'm': 'm1', 'patch': patch('result', 1, id='cfg')},
+                                                            {'op': 'add', 'ep': EPS[0], 'm': 'm1', 'patch': patch('error', 2, id='cfg')},
+                                                            request(EPS[0], batch), request(EPS[0], call('m1', 3))]}
     n = 20000 if thorough else 2500
     for i in range(n):
         length = rng.choice([2, 3, 4, 4, 5, 6] if not thorough else [3, 4, 5, 6, 6, 8, 10])
